@@ -396,6 +396,8 @@ def realnet_stalls(chk):
             p_.stop()
         origin.stop()
         silent.close()
+        if 'tmp' in locals():
+            shutil.rmtree(tmp, ignore_errors=True)
     return cases, descs
 
 
